@@ -1,6 +1,7 @@
 from operator import xor
 
 import numpy as np
+from pb_bss import _verif
 from dataclasses import dataclass
 from pb_bss.distribution.mixture_model_utils import (
     estimate_mixture_weight,
@@ -137,6 +138,7 @@ class GMMTrainer:
                 covariance_type=covariance_type,
                 fixed_covariance=fixed_covariance,
             )
+            _verif.trace(self, iteration, model, affiliation, None)
 
         return model
 
